@@ -47,7 +47,7 @@ func (vc *VC) execNode(fr *frame, n *Node) {
 	e := vc.enc
 	if n.unwind {
 		// reaching this node means the unroll bound was too small
-		if fr.fc != nil && fr.fc.Bounded > 0 {
+		if (fr.fc != nil && fr.fc.Bounded > 0) || forceBounded > 0 {
 			vc.assume(not(n.reach))
 			vc.enc.notes[fmt.Sprintf("bounded(%d): loops of %s unrolled %d times, longer executions assumed away", fr.fc.Bounded, fr.fn.Name(), fr.fc.Bounded)] = true
 		} else {
